@@ -4,6 +4,7 @@ import (
 	"bytes"
 	"fmt"
 	"sort"
+	"sync"
 
 	crypto "github.com/onflow/crypto"
 )
@@ -61,7 +62,30 @@ func errClass(err error) string {
 	return "other(" + err.Error() + ")"
 }
 
+var (
+	apiPayloadMu   sync.Mutex
+	apiPayloadMemo = map[string][]byte{}
+)
+
+// apiPayload returns a fresh copy of the (memoised) message of kind k of the shadow dealer
 func apiPayload(proto string, me int, seed int64, k string) []byte {
+	key := fmt.Sprintf("%s/%d/%d/%s", proto, me, seed, k)
+	apiPayloadMu.Lock()
+	b, ok := apiPayloadMemo[key]
+	apiPayloadMu.Unlock()
+	if !ok {
+		b = apiPayloadBuild(proto, me, seed, k)
+		apiPayloadMu.Lock()
+		apiPayloadMemo[key] = b
+		apiPayloadMu.Unlock()
+	}
+	if b == nil {
+		return nil
+	}
+	return append([]byte{}, b...)
+}
+
+func apiPayloadBuild(proto string, me int, seed int64, k string) []byte {
 	const n, t = 3, 1
 	pr := &proc{me: 0}
 	var st crypto.DKGState
@@ -260,6 +284,41 @@ func RunAPI(c APICase) APIResult {
 						c.Proto, c.Me, i, calls[i].Op, a.cls, a.running, emisKinds(a.emis), a.cbs, b.cls, b.running, emisKinds(b.emis), b.cbs, calls)})
 				break
 			}
+		}
+	}
+	// ... and once every rejected call is REPEATED many times in place (a rejected call is a stuttering step however often it is
+	// made: counters of refused calls, if any, must not reach the state): 257 times, and 65 537 times on one case in a hundred
+	if len(kept) < len(calls) && len(res.Violations) == 0 {
+		reps := 257
+		if c.Seed == 0 {
+			reps = 65537
+		}
+		var flood []APICall
+		var floodIdx []int // position in flood of the (last copy of the) i-th original call
+		for i, o := range obs {
+			k := 1
+			if o.cls == "ST" || o.cls == "II" {
+				k = reps
+			}
+			for j := 0; j < k; j++ {
+				flood = append(flood, calls[i])
+			}
+			floodIdx = append(floodIdx, len(flood)-1)
+		}
+		var scratch APIResult
+		obs3 := runAPICalls(c, flood, &scratch)
+		for i := range calls {
+			a, b := obs[i], obs3[floodIdx[i]]
+			if a.cls != b.cls || a.running != b.running || !sameEmis(a.emis, b.emis) || fmt.Sprint(a.cbs) != fmt.Sprint(b.cbs) {
+				res.Violations = append(res.Violations, Violation{"C10", "RejectedCallChangedBehaviour",
+					fmt.Sprintf("%s me=%d: call %d %s behaves differently once every rejected call is made %d times instead of once: (%s,%v,%v,%v) vs (%s,%v,%v,%v) (sequence %v)",
+						c.Proto, c.Me, i, calls[i].Op, reps, a.cls, a.running, emisKinds(a.emis), a.cbs, b.cls, b.running, emisKinds(b.emis), b.cbs, calls)})
+				break
+			}
+		}
+		for _, v := range scratch.Violations {
+			res.Violations = append(res.Violations, v)
+			break
 		}
 	}
 	return res
